@@ -113,6 +113,9 @@ def run(chk):
     for ver in ["1.0", "1.1", "1.1", "1.2"]:
         for _ in range(8 if chk.tier == "quick" else 80):
             doc = DL.gen_images_doc(rng, Rr, version=ver)
+            if ver == "1.2":
+                for arches in doc["payload"]["images"].values():
+                    arches.pop("src", None)          # a current document has no 'src' cells: the clash must be its only defect
             # (a 'src' image of a variant that lists no binary architecture is filed nowhere: it cannot clash)
             cells = [(v, a, i) for v, arches in doc["payload"]["images"].items() for a, l in arches.items() for i in range(len(l))
                      if a != "src" or any(x != "src" for x in arches)]
@@ -134,6 +137,9 @@ def run(chk):
     for m in (40, 100):
         for ver in ("1.1", "1.2"):
             doc = DL.gen_images_doc(rng, Rr, version=ver)
+            if ver == "1.2":
+                for arches in doc["payload"]["images"].values():
+                    arches.pop("src", None)          # a current document has no 'src' cells: the clash must be the only defect
             cells = [(v, a) for v, arches in doc["payload"]["images"].items() for a, l in arches.items() if a != "src" and l]
             if not cells:
                 continue
